@@ -39,7 +39,7 @@ def check_pair(e, op, ta, tb):
     bn = ["b%d" % i for i in range(nb)]
     en = ["eps"] + (["maxrel"] if op == "releq" else [])
     dom = FPDomain()
-    it = Interp(e.program, dom, max_paths=512)
+    it = Interp(e.program, dom, max_paths=max(512, 8 * (na + nb) + 64))  # one short-circuit path per compared number (x2 for relative_eq)
     ty = ta + "|" + tb
     try:
         fn, _, _ = api.build_call(e.program, op, ty, [dom.sym(x) for x in an + bn + en])
